@@ -23,7 +23,11 @@ func c14Collect(recv, name string) (conds, slices []string, ok bool) {
 	ast.Inspect(fd.Body, func(n ast.Node) bool {
 		switch x := n.(type) {
 		case *ast.IfStmt:
-			conds = append(conds, c14Norm(src(x.Cond)))
+			c := c14Norm(src(x.Cond))
+			if x.Init != nil { // `if found = a && b; found {`: the guard lives in the init statement
+				c = c14Norm(src(x.Init)) + "; " + c
+			}
+			conds = append(conds, c)
 		case *ast.SliceExpr:
 			slices = append(slices, c14Norm(src(x)))
 		case *ast.IndexExpr:
@@ -69,6 +73,32 @@ func init() {
 			}
 			c14List(w, "conds_"+fn[2], conds)
 			c14List(w, "index_"+fn[2], slices)
+		}
+		// ReadZipReader: the size accounting must precede the spill-to-disk branches
+		if fd := funcDecl("File", "ReadZipReader"); fd != nil && fd.Body != nil {
+			conds, _, _ := c14Collect("File", "ReadZipReader")
+			c14List(w, "conds_ReadZipReader", conds)
+			var stmts []string
+			ast.Inspect(fd.Body, func(n ast.Node) bool {
+				if rs, ok := n.(*ast.RangeStmt); ok && stmts == nil {
+					for _, st := range rs.Body.List {
+						if is, ok := st.(*ast.IfStmt); ok {
+							c := c14Norm(src(is.Cond))
+							if is.Init != nil {
+								c = c14Norm(src(is.Init)) + "; " + c
+							}
+							stmts = append(stmts, "if "+c)
+						} else {
+							stmts = append(stmts, c14Norm(src(st)))
+						}
+					}
+					return false
+				}
+				return true
+			})
+			c14List(w, "stmts_ReadZipReader_loop", stmts)
+		} else {
+			fail("function File.ReadZipReader")
 		}
 		// workSheetReader must return checkSheet's and checkRow's errors
 		if conds, _, ok := c14Collect("File", "workSheetReader"); ok {
